@@ -84,6 +84,12 @@ func (playWorld) Gen(seed uint64, tier string) core.Scenario {
 	if tier == "thorough" && r.Chance(1, 6) {
 		maxEv = 300
 	}
+	if r.Chance(1, 400) {
+		maxEv = 4500 // thousands of events, many of them on one tick
+		if nTracks > 2 {
+			nTracks = 2
+		}
+	}
 	for t := 0; t < nTracks; t++ {
 		var evs []PlayEv
 		n := r.Range(0, maxEv)
